@@ -65,7 +65,7 @@ def witness_defs(mode, shape, feat, top, nsub):
     return ["%s=%d" % (k, 1 if v else 0) for k, v in d.items()]
 
 
-def ob(mode, shape, top, feat=F_BF, nsub=2, maxsize=64, timeout=900, solver=None):
+def ob(mode, shape, top, feat=F_BF, nsub=2, maxsize=64, timeout=900, solver="cadical"):
     n = len(shape)
     name = "%s.%s.%s%s%s" % ("layout" if mode == 0 else "pass", TOP_NAME[top], shape_name(shape),
                               ".bf" if feat & F_BF else "", ".subarr" if feat & F_SUBARR else "")
@@ -76,7 +76,7 @@ def ob(mode, shape, top, feat=F_BF, nsub=2, maxsize=64, timeout=900, solver=None
     return Ob(name, "C08/layout.c",
               defs=["H_MODE=%d" % mode, "H_N=%d" % n, "H_SHAPE={%s}" % ",".join(str(c) for c in shape), "H_FEAT=%d" % feat,
                     "H_TOP=%d" % top, "H_NSUB=%d" % nsub, "H_MAXSIZE=%d" % maxsize] + witness_defs(mode, shape, feat, top, nsub),
-              loops=loops(n, nsub, maxsize), unwind=8, checks="functional", timeout=timeout, solver=solver,
+              loops=loops(n, nsub, maxsize), unwind=8, checks="functional", object_bits=12, timeout=timeout, solver=solver,
               native_cc=[os.path.join(REPO, "mir.c")],
               sample="every %s { %s } with arithmetic types over {%s}%s; nested/anonymous aggregates have %d arithmetic "
                      "members%s; sizeof <= %d: %s"
